@@ -9,6 +9,7 @@ pub open spec fn le16(s: Seq<u8>, o: int) -> u16 { vstd::bytes::spec_u16_from_le
 pub open spec fn le32(s: Seq<u8>, o: int) -> u32 { vstd::bytes::spec_u32_from_le_bytes(s.subrange(o, o + 4)) }
 pub open spec fn le64(s: Seq<u8>, o: int) -> u64 { vstd::bytes::spec_u64_from_le_bytes(s.subrange(o, o + 8)) }
 
+pub open spec fn lei16(s: Seq<u8>, o: int) -> int { let v = s[o] as int + 256 * (s[o + 1] as int); if v >= 32768 { v - 65536 } else { v } }
 // big-endian views in mathematical integers
 pub open spec fn be16(s: Seq<u8>, o: int) -> int { s[o] as int * 256 + s[o + 1] as int }
 pub open spec fn bei16(s: Seq<u8>, o: int) -> int { if be16(s, o) >= 32768 { be16(s, o) - 65536 } else { be16(s, o) } }
@@ -46,3 +47,5 @@ pub fn ext_u32_from_be_bytes(b: [u8; 4]) -> (r: u32) ensures r as int == be32(b@
 pub fn ext_i32_from_be_bytes(b: [u8; 4]) -> (r: i32) ensures r as int == bei32(b@, 0) { i32::from_be_bytes(b) }
 #[verifier::external_body]
 pub fn ext_u64_from_be_bytes(b: [u8; 8]) -> (r: u64) ensures r as int == be64(b@, 0) { u64::from_be_bytes(b) }
+#[verifier::external_body]
+pub fn ext_i16_from_le_bytes(b: [u8; 2]) -> (r: i16) ensures r as int == lei16(b@, 0) { i16::from_le_bytes(b) }
